@@ -1,6 +1,7 @@
 fn emit_global_declarations(
     globals: &[GlobalVariable],
     list_decls: &[ListDeclaration],
+    context: &EmitContext,
 ) -> Result<EmittedContainer, CompilerError> {
     let mut container = EmittedContainer::default();
     container.push(json!("ev"));
@@ -26,7 +27,14 @@ fn emit_global_declarations(
     }
 
     for global in globals {
-        emit_expression(&global.initial_value, &mut container.content);
+        // The context is needed to resolve list items: `VAR v = (a)` must become
+        // `{"list":{"l.a":1}}`, not an item without origin that the runtime cannot load.
+        emit_expression_ctx(
+            &global.initial_value,
+            &mut container.content,
+            Some(context),
+            None,
+        );
         container.push(json!({ "VAR=": global.name }));
     }
 
